@@ -195,6 +195,15 @@ def gen_abort_pair(r, maxn=10):
     return [first, second]
 
 
+PRE_KINDS = ["anc", "self", "sib", "allsib", "pred", "predself", "sortdesc", "sortasc", "back", "backsib"]
+
+
+def gen_pre_body(r):
+    """0-3 inner constructs run at the start of the sorted body (each kind at most once)"""
+    k = r.weighted([(0, 2), (1, 5), (2, 3), (3, 1)])
+    return r.shuffle(PRE_KINDS)[:k]
+
+
 def gen_case(r, maxn=12, maxkeys=4):
     nkeys = r.weighted([(1, 4), (2, 5), (3, 3), (4, 2)])
     nkeys = min(nkeys, maxkeys)
@@ -243,7 +252,8 @@ def gen_case(r, maxn=12, maxkeys=4):
             "subset": subset, "noise": [r.chance(1, 3) for _ in range(n + 1)] if subset else [],
             "selvar": r.chance(1, 5), "inner_sort": r.chance(1, 6),
             "at_mode": r.chance(1, 3), "with_param": r.weighted([(False, 4), ("first", 1), ("last", 1)]),
-            "inner_same": r.chance(1, 6) and n <= 12}
+            "inner_same": r.chance(1, 6) and n <= 12,
+            "pre_body": gen_pre_body(r), "pos_first": r.chance(3, 4)}
 
 
 UALPHA = ["a", "b", "A", "B", "z", "Z", "\u00e9", "\u00c9", "e\u0301", "\u00e0", "\u00e4", "\u00df", "ss", "1", "2", "10", " ",
@@ -433,7 +443,30 @@ def build(case):
         # instruction (same NodeSorter): it must give the outer order, and must not disturb the outer iteration
         isorts = "".join(x.replace("p:probe(", "p:noprobe(") for x in sorts)
         extras += ('I:<xsl:for-each select="../e[@sel=\'1\']">%s<xsl:value-of select="@id"/>,</xsl:for-each>' % isorts)
-    body = ('[<xsl:value-of select="@id"/>|<xsl:value-of select="position()"/>|<xsl:value-of select="last()"/>'
+    # inner constructs that push and pop context node lists (and evaluate position() inside, which fills the one-entry
+    # position cache with an INNER position — for several of them of the outer current node itself), executed first;
+    # position() and last() of the sorted list are then captured with NOTHING in between (any location step would
+    # clear the cache) and printed afterwards
+    POS0 = '<xsl:if test="position() = 0">x</xsl:if>'
+    PRE = {
+        "anc": '<xsl:for-each select="ancestor-or-self::*">%s</xsl:for-each>' % POS0,
+        "self": '<xsl:for-each select=".">%s</xsl:for-each>' % POS0,
+        "sib": '<xsl:for-each select="preceding-sibling::e | .">%s</xsl:for-each>' % POS0,
+        "allsib": '<xsl:for-each select="../e">%s</xsl:for-each>' % POS0,
+        "pred": '<xsl:variable name="q1" select="count((preceding-sibling::e | .)[position() = last()])"/>',
+        "predself": '<xsl:if test="not(self::e[position() = 1])">x</xsl:if>',
+        "sortdesc": ('<xsl:for-each select="../e[@sel=\'1\']"><xsl:sort select="@id" data-type="number" order="descending"/>%s'
+                     '</xsl:for-each>' % POS0),
+        "sortasc": ('<xsl:for-each select="../e[@sel=\'1\']"><xsl:sort select="@id" data-type="number"/>%s</xsl:for-each>' % POS0),
+        "back": '<xsl:apply-templates select="." mode="back"/>',
+        "backsib": '<xsl:apply-templates select="preceding-sibling::e | ." mode="back"/>',
+    }
+    prelude = "".join(PRE[k] for k in case.get("pre_body") or [])
+    if case.get("pos_first", True):
+        capture = '<xsl:variable name="vp" select="position()"/><xsl:variable name="vl" select="last()"/>'
+    else:
+        capture = '<xsl:variable name="vl" select="last()"/><xsl:variable name="vp" select="position()"/>'
+    body = (prelude + capture + '[<xsl:value-of select="@id"/>|<xsl:value-of select="$vp"/>|<xsl:value-of select="$vl"/>'
             + extras + "".join(echo) + "]")
     if case.get("inner_sort"):
         # an unrelated sort between two iterations of the outer one (same NodeSorter, same caches); the body must not
@@ -478,7 +511,9 @@ def build(case):
         inner = '<xsl:for-each select="/r/g">%s</xsl:for-each>' % inner
     xsl = ('<?xml version="1.0"?><xsl:stylesheet version="1.0" xmlns:xsl="http://www.w3.org/1999/XSL/Transform" '
            'xmlns:p="%s" xmlns:q="urn:verif:none" exclude-result-prefixes="p q"><xsl:output method="text"/>'
-           '<xsl:template match="/">%s%s</xsl:template>%s</xsl:stylesheet>' % (PROBE_NS, presort, inner, templ))
+           '<xsl:template match="/">%s%s</xsl:template>%s'
+           '<xsl:template match="e" mode="back"><xsl:if test="position() = 0">x</xsl:if></xsl:template>'
+           '</xsl:stylesheet>' % (PROBE_NS, presort, inner, templ))
     return request_line(case, xml, xsl), xml, xsl
 
 
@@ -571,5 +606,6 @@ def describe(case):
     flags = "".join(f for f, on in (("+nest", case["nest"]), ("+subset", case.get("subset")), ("+selvar", case.get("selvar")),
                                     ("+inner", case.get("inner_sort")), ("+mode", case.get("at_mode") and case["mode"] == "at"),
                                     ("+with-param", case.get("with_param") and case["mode"] == "at"),
-                                    ("+inner-same", case.get("inner_same"))) if on)
+                                    ("+inner-same", case.get("inner_same")),
+                                    ("+pre[%s]" % ",".join(case.get("pre_body") or []), case.get("pre_body"))) if on)
     return "%s%s keys[%s] rows[%s]" % (case["mode"], flags, ks, rows)
